@@ -5,6 +5,7 @@ package main
 
 import (
 	"fmt"
+	"sort"
 	"time"
 
 	"github.com/brocaar/lorawan"
@@ -38,6 +39,7 @@ func planProjection(b band.Band) (M, []band.VerifChannel, error) {
 	for _, d := range s.DataRates {
 		defdrs = append(defdrs, d.Index)
 	}
+	sort.Ints(defdrs) // the snapshot lists them in map order
 	all := intsOrEmpty(b.GetUplinkChannelIndices())
 	get := []interface{}{}
 	for _, i := range all {
